@@ -1,21 +1,5 @@
 package main
 
-import (
-	"bytes"
-	"encoding/json"
-	"fmt"
-	"net"
-	"regexp"
-
-	"github.com/EdgeCast/vflow/ipfix"
-	netflow5 "github.com/EdgeCast/vflow/netflow/v5"
-	netflow9 "github.com/EdgeCast/vflow/netflow/v9"
-	"github.com/EdgeCast/vflow/sflow"
-
-	"verif/harness/mon"
-	"verif/harness/wire"
-)
-
 // step mirrors the driver's scenario step.
 type step struct {
 	Op    string `json:"op"`
@@ -39,311 +23,4 @@ type scenario struct {
 	TypeFilter  []uint32 `json:"type_filter"`
 	Verbose     bool     `json:"verbose"`
 	Steps       []step   `json:"steps"`
-}
-
-// fedInfo is what the harness knows about one fed datagram.
-type fedInfo struct {
-	ID     int
-	Addr   []byte
-	Dgram  []byte // as the worker sees it (truncated to the buffer size)
-	Key    string // identity the payload carries: agent|sequence
-	Expect []byte // payload that decoding this datagram alone produces (nil = nothing to publish)
-	Class  string // definite | partial | failure (decode outcome for DecodedCount)
-	Kind   string // what the generator intended
-	Phase  int
-}
-
-type libCache struct {
-	ic ipfix.MemCache
-	nc netflow9.MemCache
-}
-
-func newLibCache() *libCache {
-	return &libCache{ipfix.GetCache(""), netflow9.GetCache("")}
-}
-
-var colTime = regexp.MustCompile(`"ColTime":-?\d+`)
-
-func maskColTime(b []byte) []byte { return colTime.ReplaceAll(b, []byte(`"ColTime":0`)) }
-
-// standalone computes, with the library decoders on a private cache, what the worker must publish
-// for one datagram and how the datagram counts. It mirrors the statement ("what decoding that
-// datagram on its own would produce"), not the worker code.
-func standalone(proto string, addr, d []byte, c *libCache, filter []uint32) (payload []byte, class string, pn string) {
-	defer func() {
-		if p := recover(); p != nil {
-			pn = fmt.Sprint(p)
-			payload, class = nil, "failure"
-		}
-	}()
-	ip := net.IP(append([]byte{}, addr...))
-	switch proto {
-	case "ipfix":
-		msg, err := ipfix.NewDecoder(ip, d).Decode(c.ic)
-		if msg == nil {
-			return nil, "failure", ""
-		}
-		class = "definite"
-		if err != nil {
-			class = "partial"
-		}
-		if len(msg.DataSets) > 0 {
-			b, jerr := msg.JSONMarshal(new(bytes.Buffer))
-			if jerr == nil {
-				payload = append([]byte{}, b...)
-			}
-		}
-	case "nf9":
-		msg, err := netflow9.NewDecoder(ip, d).Decode(c.nc)
-		if msg == nil {
-			return nil, "failure", ""
-		}
-		class = "definite"
-		if err != nil {
-			class = "partial"
-		}
-		if len(msg.DataSets) > 0 {
-			b, jerr := msg.JSONMarshal(new(bytes.Buffer))
-			if jerr == nil {
-				payload = append([]byte{}, b...)
-			}
-		}
-	case "nf5":
-		msg, err := netflow5.NewDecoder(ip, d).Decode()
-		if msg == nil {
-			return nil, "failure", ""
-		}
-		class = "definite"
-		if err != nil {
-			class = "partial"
-		}
-		if len(msg.Flows) > 0 {
-			b, jerr := msg.JSONMarshal(new(bytes.Buffer))
-			if jerr == nil {
-				payload = append([]byte{}, b...)
-			}
-		}
-	case "sflow":
-		dec := sflow.NewSFDecoder(bytes.NewReader(d), filter)
-		dg, err := dec.SFDecode()
-		if err != nil || dg == nil {
-			return nil, "failure", ""
-		}
-		if len(dg.Samples)+len(dg.Counters) == 0 {
-			return nil, "partial", "" // success without any sample: "decodes successfully" is not defined for it
-		}
-		class = "definite"
-		b, jerr := json.Marshal(dg)
-		if jerr == nil {
-			payload = maskColTime(b)
-		} else {
-			class = "partial"
-		}
-	}
-	return
-}
-
-var (
-	agentRe = regexp.MustCompile(`^\{"AgentID":"([^"]*)"`)
-	seqRe   = map[string]*regexp.Regexp{
-		"ipfix": regexp.MustCompile(`"SequenceNo":(\d+)`),
-		"nf9":   regexp.MustCompile(`"SeqNum":(\d+)`),
-		"nf5":   regexp.MustCompile(`"SeqNum":(\d+)`),
-		"sflow": regexp.MustCompile(`"SequenceNo":(\d+)`),
-	}
-	sfAgentRe = regexp.MustCompile(`"IPAddress":"([^"]*)"`)
-)
-
-// payloadKey extracts the identity (agent|sequence) a published payload carries.
-func payloadKey(proto string, b []byte) string {
-	var agent string
-	if proto == "sflow" {
-		// {"Version":5,...,"SequenceNo":N,...,"IPAddress":"a.b.c.d",...}: the first SequenceNo is the datagram's
-		if m := sfAgentRe.FindSubmatch(b); m != nil {
-			agent = string(m[1])
-		}
-	} else if m := agentRe.FindSubmatch(b); m != nil {
-		agent = string(m[1])
-	}
-	m := seqRe[proto].FindSubmatch(b)
-	if m == nil {
-		return agent + "|?"
-	}
-	return agent + "|" + string(m[1])
-}
-
-// traffic builds the datagrams of a scenario. Every datagram carries a unique identity (exporter
-// address + sequence number) and identity-derived field values.
-type traffic struct {
-	proto     string
-	exporters [][]byte
-	tpls      map[string][]*wire.Template // per exporter (hex)
-	tplDgrams map[string][]byte
-	snap      []wire.Elem
-	g         *mon.RNG
-	udpSize   int
-}
-
-func newTraffic(g *mon.RNG, proto string, nexp int, udpSize int, snap []wire.Elem, v4only bool) *traffic {
-	t := &traffic{proto: proto, tpls: map[string][]*wire.Template{}, tplDgrams: map[string][]byte{}, snap: snap, g: g, udpSize: udpSize}
-	seen := map[string]bool{}
-	for len(t.exporters) < nexp {
-		var a []byte
-		if v4only {
-			a = g.Bytes(4)
-			if g.Bool() {
-				b := make([]byte, 16)
-				b[10], b[11] = 0xff, 0xff
-				copy(b[12:], a)
-				a = b
-			}
-		} else {
-			a = wire.GenAddr(g)
-		}
-		if seen[string(a)] {
-			continue
-		}
-		seen[string(a)] = true
-		t.exporters = append(t.exporters, a)
-	}
-	if proto == "ipfix" || proto == "nf9" {
-		o := wire.GenOpts{Elems: snap, Varlen: proto == "ipfix", Reduced: true, Options: true, MaxFields: 8, MaxStrLen: 12}
-		if proto == "nf9" {
-			o.OnlyPEN0, o.Varlen = true, false
-		}
-		for _, e := range t.exporters {
-			k := mon.Hex(e)
-			var sets []wire.Set
-			for i, n := 0, g.Range(1, 3); i < n; i++ {
-				tp := wire.GenTemplate(g, uint16(256+i), o)
-				t.tpls[k] = append(t.tpls[k], tp)
-				kind := wire.SetTemplate
-				if tp.Options {
-					kind = wire.SetOptTemplate
-				}
-				s := wire.Set{Kind: kind, Templates: []*wire.Template{tp}}
-				if proto == "nf9" {
-					s.Pad = (4 - wire.SetLen(&s)%4) % 4
-				}
-				sets = append(sets, s)
-			}
-			b, _ := wire.EncodeFlow(proto, []uint32{0, 0, 0, 0}, sets)
-			t.tplDgrams[k] = b
-		}
-	}
-	return t
-}
-
-// data builds one decodable datagram with identity (exporter e, sequence id); big asks for a
-// datagram close to the buffer size, otherwise a tiny one.
-func (t *traffic) data(e []byte, id int, big bool) []byte {
-	g := t.g
-	switch t.proto {
-	case "ipfix", "nf9":
-		o := wire.GenOpts{Elems: t.snap, MaxStrLen: 12}
-		tps := t.tpls[mon.Hex(e)]
-		var sets []wire.Set
-		budget := 60
-		if big {
-			budget = t.udpSize - 40
-		}
-		used := 24
-		for len(sets) == 0 || (big && used < budget-100 && len(sets) < 40) {
-			tp := tps[g.Intn(len(tps))]
-			k := 1
-			if big {
-				k = g.Range(1, 8)
-			}
-			s := wire.GenDataSet(g, tp, k, o, 3)
-			if t.proto == "nf9" {
-				for try := 0; ; try++ {
-					s.Pad = 0
-					need := (4 - wire.SetLen(&s)%4) % 4
-					if need < tp.MinRecLen() {
-						s.Pad = need
-						break
-					}
-					s.Records = append(s.Records, wire.GenRecord(g, tp, o))
-				}
-			}
-			l := wire.SetLen(&s)
-			if used+l > t.udpSize-4 && len(sets) > 0 {
-				break
-			}
-			if used+l > t.udpSize-4 {
-				s.Records = s.Records[:1]
-				s.Pad = 0
-				if t.proto == "nf9" {
-					need := (4 - wire.SetLen(&s)%4) % 4
-					if need < tp.MinRecLen() {
-						s.Pad = need
-					}
-				}
-			}
-			used += wire.SetLen(&s)
-			sets = append(sets, s)
-		}
-		var b []byte
-		if t.proto == "ipfix" {
-			b, _ = wire.EncodeFlow("ipfix", []uint32{g.U32(), uint32(id), g.U32(), 0}, sets)
-		} else {
-			b, _ = wire.EncodeFlow("nf9", []uint32{g.U32(), g.U32(), uint32(id), g.U32()}, sets)
-		}
-		return b
-	case "nf5":
-		cnt := 1
-		if big {
-			cnt = (t.udpSize - 24) / 48
-			if cnt > 30 {
-				cnt = 30
-			}
-			if cnt < 1 {
-				cnt = 1
-			}
-		}
-		b := wire.GenNf5(g, 5, cnt, 0)
-		b[16], b[17], b[18], b[19] = byte(id>>24), byte(id>>16), byte(id>>8), byte(id)
-		return b
-	case "sflow":
-		d := &wire.SFDatagram{Version: 5, Agent: e[len(e)-4:], SubAgent: g.U32(), Seq: uint32(id), UpTime: g.U32()}
-		if len(e) == 16 && !(e[10] == 0xff && e[11] == 0xff) {
-			d.Agent = e
-		}
-		n := 1
-		if big {
-			n = 40
-		}
-		for i := 0; i < n; i++ {
-			s := wire.GenSFSample(g, []string{"flow", "counter"}[g.Intn(2)], false)
-			if len(s.Recs) == 0 {
-				s.Recs = nil
-			}
-			d.Samples = append(d.Samples, s)
-			if len(d.Encode()) > t.udpSize-8 {
-				d.Samples = d.Samples[:len(d.Samples)-1]
-				break
-			}
-		}
-		if len(d.Samples) == 0 {
-			d.Samples = []wire.SFSample{{TypeWord: 2, Kind: "counter", Seq: uint32(id)}}
-		}
-		return d.Encode()
-	}
-	return nil
-}
-
-// key is the identity string the published payload of (exporter, id) must carry.
-func (t *traffic) key(e []byte, id int, d []byte) string {
-	if t.proto == "sflow" {
-		// the sFlow payload names the agent address carried in the datagram, not the UDP source
-		al := 4
-		if len(d) >= 8 && d[7] == 2 {
-			al = 16
-		}
-		if len(d) >= 8+al {
-			return net.IP(d[8:8+al]).String() + "|" + fmt.Sprint(id)
-		}
-		return "?|" + fmt.Sprint(id)
-	}
-	return net.IP(e).String() + "|" + fmt.Sprint(id)
 }
